@@ -135,7 +135,7 @@ def excel_rows(source_path, sheet=1):
                     location.advance_cell()
                 yield row
                 location.advance_line()
-    except xlrd.XLRDError as error:
+    except (xlrd.XLRDError, zipfile.BadZipFile) as error:
         raise errors.DataFormatError("cannot read Excel file: %s" % error, location)
     except UnicodeError as error:
         raise errors.DataFormatError("cannot decode Excel data: %s" % error, location)
